@@ -168,6 +168,9 @@ func mkRunnerSkipsFailedLines() (skips bool) {
 func (s mkScenario) script() string {
 	var b strings.Builder
 	b.WriteString("title: Start\n---\n")
+	if s.hostVar {
+		b.WriteString("{$w}\n") // a line that is nothing but one inline expression: its text is the value of the moment
+	}
 	for _, l := range s.pre {
 		if s.poison {
 			b.WriteString(mkPoisonLine + "\n")
@@ -270,11 +273,13 @@ func (s mkScenario) run(script string, choices []int) (lines []string, res []mkR
 	var runner *ysgo.DialogueRunner
 	storer := variable.NewInMemoryStorer()
 	hostVals := []string{"", "ab ", "Q: "}
+	hostWhole := []string{"[b]bold[/b] one", "Ann: [wave]two[/wave] and more", "three [pause/] words"}
 	if !guarded(func() {
 		var r *ysgo.DialogueRunner
 		var err error
 		if s.hostVar {
 			storer.SetStringValue("v", hostVals[0])
+			storer.SetStringValue("w", hostWhole[0])
 			r, err = ysgo.NewDialogueRunner(storer, "verif", strings.NewReader(script))
 		} else {
 			r, err = ysgo.NewDialogueRunner(nil, "verif", strings.NewReader(script))
@@ -328,6 +333,11 @@ func (s mkScenario) run(script string, choices []int) (lines []string, res []mkR
 		if s.hostVar {
 			v = hostVals[pass%len(hostVals)]
 			storer.SetStringValue("v", v) // the host writes between two calls
+			w := hostWhole[pass%len(hostWhole)]
+			storer.SetStringValue("w", w)
+			if !expectLine(w) {
+				return nil, nil, false
+			}
 		}
 		for _, l := range s.pre {
 			if !expectLine(v + l) {
